@@ -139,7 +139,11 @@ def run_unit(unit, rlimit=30, only_fn=None, smt_seed=None):
         cmd += ["--smt-option", f"smt.random_seed={smt_seed}", "--smt-option", f"sat.random_seed={smt_seed}"]
     r.cmd = " ".join(cmd)
     t0 = time.time()
-    p = sh(cmd, cwd=BUILD)
+    try:
+        p = sh(cmd, cwd=BUILD, timeout=int(os.environ.get('VERUS_TIMEOUT', '900')))
+    except subprocess.TimeoutExpired:
+        r.status, r.reason = 'undecided', 'verus did not finish within the time limit'
+        return r
     r.verus_ms = int((time.time() - t0) * 1000)
     try:
         out = json.loads(p.stdout)
